@@ -27,8 +27,10 @@ MUTANTS = [
     ('c19-inflight-table-keyed-constant', 'C19', P, "                self.__events[id] = event\n                while not hasattr(self.__events[id], 'remote_finish'):",
      "                self.__events[id] = self.__events.get(0, event)\n                while not hasattr(self.__events[id], 'remote_finish'):"),
     # --- buffer handling / exactly once ------------------------------------------------------------------
-    ('c19-buffer-not-cleared', 'C19', P, "        packets = self.__buffer.split(DELIMITER)\n        self.__buffer = b''\n",
-     "        packets = self.__buffer.split(DELIMITER)\n"),
+    ('c19-buffer-not-cleared', 'C19', P, "            packets.append(self.__buffer)\n            self.__buffer = b''\n",
+     "            packets.append(self.__buffer)\n"),
+    ('c19-tail-always-taken-for-complete', 'C19', P, "        try:\n            json.loads(self.__buffer)\n        except (ValueError, RecursionError):\n            pass\n        else:\n            packets.append(self.__buffer)\n            self.__buffer = b''\n",
+     "        packets.append(self.__buffer)\n        self.__buffer = b''\n"),
     ('c19-call-fired-twice', 'C19', P, "            self.fire(event, *event.channels)\n", "            self.fire(event, *event.channels)\n            self.fire(event, *event.channels)\n"),
     ('c19-no-delimiter-on-send', 'C19', P, "            packet = dump_event(event, id).encode('utf-8') + DELIMITER", "            packet = dump_event(event, id).encode('utf-8')"),
     # --- result routing ------------------------------------------------------------------------------------
